@@ -371,7 +371,12 @@ def pred_c04(line, st):
     return None
 
 
-EQUIV_PLUSP = {("zk.mask.verify", "m"), ("zk.remask.verify", "c1"), ("zk.remask.verify", "c2")}
+# mutations that produce an *equivalent* representation (same group element modulo p that is
+# neither transmitted nor hashed; same residue modulo the group order for an exponent that the
+# verifier only uses modulo q): the property does not demand a rejection there
+EQUIV_PLUSP = {("zk.mask.verify", "m"), ("zk.remask.verify", "c1"), ("zk.remask.verify", "c2"),
+               ("zk.key.final", "key")}
+EQUIV_PLUSQ = {("zk.or.verify", "c1"), ("zk.or.verify", "c2")}
 
 
 def pred_c05(line, st):
@@ -389,6 +394,8 @@ def pred_c05(line, st):
     _, field, how = (t.split(":") + ["", ""])[:3]
     if how == "plusp" and (op, field) in EQUIV_PLUSP:
         return None     # same group element modulo p, never transmitted: equivalent representative
+    if how == "plusq" and (op, field) in EQUIV_PLUSQ:
+        return None     # same residue modulo the group order
     if op == "zk.se.verify" and field == "s":
         if not any(b == 0 for b in se_bits(a)):
             return None  # the original stack is only looked at in rounds with challenge 0
@@ -407,7 +414,9 @@ PROPS["C01"] = dict(
     module="TmcgProps.C01",
     areas=[("vtmf", {"quick": 150, "thorough": 3000}, [], "san"), ("tmcg", {"quick": 200, "thorough": 4000}, [], "san")],
     obligations=[("Tmcg.C01.vtmf_open_correct", "full"), ("Tmcg.C01.vtmf_open_missing_share", "full"),
-                 ("Tmcg.C01.vtmf_players_spec", "full"), ("Tmcg.C01.remask_preserves_plain", "full")],
+                 ("Tmcg.C01.vtmf_players_spec", "full"), ("Tmcg.C01.remask_preserves_plain", "full"),
+                 ("Tmcg.C01.tmcg_open_correct", "full"), ("Tmcg.C01.tmcg_secret_columns", "full"),
+                 ("Tmcg.C01.jacobi_is_jacobiSym", "full")],
     predicate=pred_c01,
     level_text="Theorem in Lean 4: in the executable model of the VTMF (all exponentiation variants included) a card of type T masked by any chain opens to T with all shares, "
                "and to the sentinel (up to an explicit exceptional set) with shares missing - for every valid group, player count, secrets, chain. "
@@ -473,4 +482,36 @@ PROPS["C09"] = dict(
                "Partial: square roots, interpolation, prime generators, hex conversion and the big-integer wrapper are not yet modelled.",
     level_note=LEVEL_NOTE + " GMP's mpz_powm/mpz_invert/mpz_jacobi are modelled and the model layer itself is compared with GMP.",
     assumptions=["partial: sqrt / interpolation / prime generation / TMCG_Bigint not yet covered"],
+)
+
+PROPS["C04"] = dict(
+    module="TmcgProps.C04",
+    areas=ZK_AREAS,
+    obligations=[("Tmcg.C04.cp_special_sound", "full"), ("Tmcg.C04.schnorr_special_sound", "full"),
+                 ("Tmcg.C04.cp_wrong_witness", "full"), ("Tmcg.C04.cpVerify_accept_iff", "full"),
+                 ("Tmcg.C04.nizkVerify_accept_iff", "full")],
+    predicate=pred_c04,
+    level_text="Soundness reductions in Lean 4 for the VTMF sigma protocols: special soundness (two answers give the witness, in particular equal logarithms), "
+               "the honest algorithm with a non-fitting witness is accepted only on an explicit hash collision or for one challenge residue class, and the verifiers' exact decision logic. "
+               "The correspondence run plays non-fitting provers (unequal logs, re-typed mask, wrong-key share, substituted/duplicated card, non-cyclic permutation as rotation) against the real verifiers with served verifier coins "
+               "and replays the exact cut-and-choose statement (a false statement survives exactly the rounds whose challenge the prover can answer). Partial: the 2^-kappa counting theorem for cut-and-choose and knowledge soundness of the Groth/Hoogh arguments are not proved in Lean.",
+    level_note=LEVEL_NOTE + " Hash collision resistance and hardness of discrete logs are assumptions named in the theorem statements (explicit Collision disjunct).",
+    trusted=ZK_TRUST,
+    assumptions=["partial: cut-and-choose exactness checked on the implementation (served coins), not yet a Lean theorem; Groth/VRHE knowledge soundness not attempted",
+                 "collision resistance of the hash (explicit disjunct), discrete-log hardness"],
+)
+PROPS["C05"] = dict(
+    module="TmcgProps.C05",
+    areas=ZK_AREAS,
+    obligations=[("Tmcg.C05.shash_input_injective", "full"), ("Tmcg.C05.cp_hash_covers", "full"),
+                 ("Tmcg.C05.cp_range_refuse", "full"), ("Tmcg.C05.nizk_range_refuse", "full"),
+                 ("Tmcg.C05.cp_bind", "full"), ("Tmcg.C05.nizk_bind", "full"),
+                 ("Tmcg.C05.cp_equivalent_response", "full"), ("Tmcg.C05.fpowm_wrong_base_refused", "full")],
+    predicate=pred_c05,
+    level_text="Lean 4 theorems: the Fiat-Shamir hash input is injective in its argument list and covers group, key, commitments, statement and bases; out-of-range values are refused; "
+               "replacing a statement value, base or (non-equivalently) the response of an accepted proof needs an explicit hash collision; the accepted equivalent representative (r, r-q) is characterised. "
+               "Correspondence: the mutation catalogue (13 mutations x every transmitted value and public input) against every real verifier, verdicts and hash queries compared with the model.",
+    level_note=LEVEL_NOTE + " Collision resistance is an explicit disjunct.",
+    trusted=ZK_TRUST,
+    assumptions=["partial: binding theorems exist for Chaum-Pedersen and the key NIZK (which all VTMF card proofs reduce to); OR proof, stack proofs, Groth/VRHE, Rabin signatures: mutation correspondence only so far"],
 )
